@@ -23,6 +23,7 @@ import sys
 import time
 import traceback
 import warnings
+import zlib
 from collections import Counter
 
 from . import env
@@ -116,6 +117,7 @@ class Recorder:
         self.nontrivial = set()
         self.classes = Counter()
         self.samples = []
+        self.next_sample = 12
         self.excluded = Counter()
         self.known_hits = Counter()
         self.failures = {}          # sig -> list of (size, case, failure)
@@ -180,7 +182,10 @@ def _observe(sub, rec, case, known_sigs, sample_every):
         rec.nontrivial.add(case_hash(case))
     for lb in labels:
         rec.classes[lb] += 1
-    if len(rec.samples) < 3 or (rec.evaluations % sample_every == 0 and len(rec.samples) < 8):
+    # samples for the evidence file: the first case, then non-trivial cases at geometrically spaced positions (the first
+    # cases a Hypothesis run draws are its simplest ones and say little about what the bulk looks like)
+    if len(rec.samples) < 8 and (rec.evaluations == 1 or (rec.evaluations >= rec.next_sample and (nt or rec.evaluations >= 2 * rec.next_sample))):
+        rec.next_sample = max(rec.next_sample * 2, rec.evaluations + 1)
         try:
             rec.samples.append(_jsonable(sub.render(case)))
         except Exception:
@@ -219,7 +224,8 @@ def run_shard(task):
             sample_every = max(1, n // 6)
             strat = sub.strategy(tier)
 
-            @hseed(seed * 1000 + shard)
+            # each sub-check gets its own stream, so sub-checks sharing a strategy do not see the same cases
+            @hseed((seed * 1000 + shard) * 1000 + zlib.crc32(subname.encode()) % 1000)
             @settings(max_examples=n, database=None, deadline=None, derandomize=False,
                       phases=[Phase.generate], report_multiple_bugs=False,
                       suppress_health_check=list(HealthCheck))
@@ -442,8 +448,7 @@ def run_property(mod, tier, seed, only_sub=None, jobs=16):
         agg["evaluations"] += r["evaluations"]
         agg["nontrivial"].update(r["nontrivial"])
         agg["classes"].update(r["classes"])
-        if len(agg["samples"]) < 6:
-            agg["samples"].extend(r["samples"][:2])
+        agg["samples"].append(r["samples"])
         agg["excluded"].update(r["excluded"])
         agg["known_hits"].update(r["known_hits"])
         agg["truncated"] = agg["truncated"] or r["truncated"]
@@ -487,9 +492,20 @@ def run_property(mod, tier, seed, only_sub=None, jobs=16):
     for name, a in per_sub.items():
         all_nt.update(f"{name}:{h}" for h in a["nontrivial"])
     samples = []
-    for name, a in per_sub.items():
-        for smp in a["samples"][:3]:
-            samples.append({"sub": name, "case": smp})
+    per_sub_quota = max(3, 24 // max(1, len(per_sub)))
+    for name, a in sorted(per_sub.items()):
+        # round-robin over the shards, latest (least minimal) first, distinct only
+        seen, picked = set(), []
+        lists = [list(reversed(x)) for x in sorted(a["samples"], key=lambda x: json.dumps(x, sort_keys=True, default=repr))]
+        while any(lists) and len(picked) < per_sub_quota:
+            for lst in lists:
+                if lst and len(picked) < per_sub_quota:
+                    smp = lst.pop(0)
+                    key = json.dumps(smp, sort_keys=True, default=repr)
+                    if key not in seen:
+                        seen.add(key)
+                        picked.append(smp)
+        samples.extend({"sub": name, "case": smp} for smp in picked)
     khits = Counter()
     for a in per_sub.values():
         khits.update(a["known_hits"])
